@@ -23,7 +23,7 @@ import (
 func init() {
 	reg.Register(&reg.Spec{ID: "C30",
 		Imports: "From verif Require Import lib.Base model.C30. From Coq Require Import Init.Byte.",
-		Judge:   "C30.judge", Shard: 500, Run: run})
+		Judge:   "C30.judge", Shard: 400, Run: run})
 }
 
 // ---------------------------------------------------------------- Coq terms
